@@ -550,8 +550,9 @@ func c29(c *hx.Ctx) {
 	for _, s := range bad {
 		c.Failf("c29-handler-after-release", map[string]any{"kind": "release-race"}, "%s", s)
 	}
-	// subscribe/release hammering while new streams join: a release between the
-	// initial-set pass and the sweep of the Execute loop (oracle only)
+	// subscribe/release hammering while new streams join: looks for a release between
+	// the initial-set pass and the sweep of the Execute loop body (one lock region since
+	// /repo 4585b8b, so this must never fire; oracle only)
 	gr := c.N / 50
 	if gr < 4 {
 		gr = 4
@@ -564,6 +565,6 @@ func c29(c *hx.Ctx) {
 	for _, s := range gap {
 		c.Failf("c29-unsub-not-retracted-gap", map[string]any{"kind": "gap-race",
 			"history": "6 goroutines loop AddSubscription(fresh channel); Release() while a new peer stream is added every 35 ms; after all subscriptions are released and the loop is idle, the stream still holds Subscribe=true",
-			"model_witness": "Pubsub/Proofs29Loop.v gap_trace = [LSubscribe 7; LAddPeer 1; LInit; LRelease 7; LSweep; LWake; LInit; LSweep]"}, "%s", s)
+			"model_witness": "two-region loop body (Pubsub/LoopFine.v, before /repo 4585b8b): gap_trace = [LSubscribe 7; LAddPeer 1; LInit; LRelease 7; LSweep; LWake; LInit; LSweep]; the one-region model Sub.v (theorem c29_unsub) excludes it"}, "%s", s)
 	}
 }
